@@ -328,6 +328,7 @@ def run(ctx):
         nb = HDisc("N", ["a", "b"], ["y", "z"], {"a": 2, "b": 1, "y": 2, "z": 1}, salt=4)
         nb.set_cache("HDF5Cache", hdf_file_path=path, hdf_node_path="neighbour")
         ctx.probe("two_nodes_in_one_cache_file")
+    jac_only = set()  # inputs for which the cache holds a Jacobian and no outputs (tolerance runs)
     stored = []  # keys of the inputs held by the cache (model), in storage order
     passed = []  # dicts of arrays handed to the discipline (the caller's buffers)
     ops = []
@@ -387,7 +388,10 @@ def run(ctx):
             stored.append(key)
 
     def check_outputs(out, key, hits, what):
-        cands = hits or [key]
+        # (within a tolerance, an input that is not itself stored is a distinct input: the cache may serve the outputs of a
+        # stored input within the tolerance or let the body run - then the outputs are those of the input itself)
+        shadowed = tol and any(cluster_of(k_, tol) == cluster_of(key, tol) for k_ in jac_only)
+        cands = (list(hits) + ([key] if shadowed and key not in hits else [])) or [key]
         for k in cands:
             exp = f_of({n: array(v) for n, v in k})
             if all(array_equal(array(out[n]), exp[n]) for n in exp):
@@ -459,7 +463,18 @@ def run(ctx):
                         check_jacobian(jac, key, hits, "linearize(all)")
                     ctx.event("lin", key, canon({o: {i_: dense(v) for i_, v in jo.items()} for o, jo in jac.items()}), d.n_run - n0)
                 ran = d.n_run - n0
-                if hits:
+                shadow = [k_ for k_ in jac_only if cluster_of(k_, tol) == cluster_of(key, tol)] if tol else []
+                if tol and hits and key not in hits and not ran and op == 1 and full_cache:
+                    jac_only.add(key)  # the Jacobian computed for this input is stored as an entry of its own, without outputs
+                if hits and tol and key not in hits and ran and shadow:
+                    # a distinct input within the tolerance of a stored one, not served from the cache: the first entry found
+                    # within the tolerance holds a Jacobian and no outputs. One run, a new stored input.
+                    ctx.probe("input_within_tolerance_not_served_from_the_cache")
+                    jac_only.discard(key)
+                    if ran > 1:
+                        ctx.violate("C05.runs_once_per_input", sig, f"the body ran {ran} times for the new input {key}; ops={ops}")
+                    note_store(key)
+                elif hits:
                     ctx.probe("cache_hit_expected")
                     if ran and full_cache:
                         ctx.violate("C05.runs_once_per_input", sig, f"the body ran again for input {key} although {hits} is stored; ops={ops}")
@@ -498,6 +513,7 @@ def run(ctx):
                 ops.append(("clear",))
                 d.cache.clear()
                 stored = []
+                jac_only.clear()
             elif op == 5 and policy == 4:
                 ops.append(("reopen",))
                 n_run = d.n_run
